@@ -487,10 +487,26 @@ def shared_sources(chk, rng):
                lambda src: isinstance(src, np.ndarray) and src.dtype == np.dtype("<f4")),
               ("MarkerTrack", (NF, 3), lambda src: MarkerTrack("m", src), lambda o: o.data, lambda src: isinstance(src, np.ndarray)),
               ("EMGTrack", (NF,), lambda src: EMGTrack("s", src), lambda o: o.data, lambda src: isinstance(src, np.ndarray))]
+    # the model's answer for both kinds of source: [source; item; item; edit item 1] then a third item — versions of
+    # item 2, of the source, and of the third item (Buffers.v, op 49).  ids: source 0, its buffer 1, then items in order
+    mkeep = common.run_model([(49, [[[1, 0], [2, 0], [2, 0], [3, 2], [2, 0]], [[0, 3], [1, 0], [0, 4]]])])[0][1]
+    mconv = common.run_model([(49, [[[1, 1], [2, 0], [2, 0], [3, 2], [2, 0]], [[0, 4], [1, 0], [0, 6]]])])[0][1]
+    if mconv != [[0], [0], [0]] or mkeep != [[1], [1], [1]]:
+        chk.violation("C20: Buffers.v gives %r for a converted and %r for a kept source" % (mconv, mkeep), {"correspondence": "coq/Model/Buffers.v"}, False)
     for cname, shape, make, arr_of, adopts in makers:
-        for sname, mk in sources(shape):
+        for sname, mk in sources(shape) + [("the stored-type array itself (kept)", lambda shape=shape: np.arange(int(np.prod(shape)), dtype="<f4").reshape(shape) + 1)]:
             src = mk()
             if adopts(src):
+                # the constructor keeps the caller's array: Buffers.v says the two items ARE one buffer (SKeep) — the library
+                # must agree with the model here too (this is the sharing the caller has asked for, not a violation)
+                a, b = make(src), make(src)
+                arr_of(a)[...] = 99.0
+                shared = np.array(arr_of(b), dtype="<f8").tolist() != (np.arange(int(np.prod(shape))).reshape(shape) + 1.0).tolist()
+                chk.count("shared source: %s keeps %s (one buffer, as the model says)" % (cname, sname))
+                chk.note_case(("kept source", cname, sname), True)
+                if not shared:
+                    chk.violation("C20 %s: correspondence broken: the constructor copied an array Buffers.v says it keeps (%s)" % (cname, sname),
+                                  {"class": cname, "source": sname, "correspondence": "coq/Model/Buffers.v SKeep"}, False)
                 continue
             chk.note_case(("shared source", cname, sname), True)
             try:
